@@ -14,6 +14,7 @@ Definition run (comp : Z) (inp : list Z) : list Z :=
   else if comp =? 11 then run_tokens inp
   else if comp =? 12 then run_parser_ops inp
   else if comp =? 13 then run_pqueue_ops inp
+  else if comp =? 14 then run_iter_ops inp
   else if comp =? 20 then run_ctor inp
   else if comp =? 21 then run_history inp
   else if comp =? 30 then run_syx_write inp
